@@ -351,6 +351,48 @@ class ATable:
         self.cells = [[fill if fill is not None else OB("uninitialised") for _ in range(cols)] for _ in range(rows)]
 
 
+class _TRow:
+    def __init__(self, base, r):
+        self.base, self.r = base, r
+
+    def __getitem__(self, c):
+        if isinstance(c, slice):
+            return [self.base.cells[cc][self.r] for cc in range(self.base.rows)[c]]
+        return self.base.cells[c][self.r]
+
+    def __setitem__(self, c, v):
+        self.base.cells[c][self.r] = v
+
+    def __len__(self):
+        return self.base.rows
+
+    def __iter__(self):
+        return iter(self.base.cells[c][self.r] for c in range(self.base.rows))
+
+
+class _TCells:
+    def __init__(self, base):
+        self.base = base
+
+    def __getitem__(self, r):
+        return _TRow(self.base, r)
+
+    def __len__(self):
+        return self.base.cols
+
+    def __iter__(self):
+        return iter(_TRow(self.base, r) for r in range(self.base.cols))
+
+
+class ATableT(ATable):
+    """transposed VIEW of an ATable (numpy `.T`): reads and writes go to the cells of the base table"""
+
+    def __init__(self, base: ATable):
+        self.base = base
+        self.rows, self.cols = base.cols, base.rows
+        self.cells = _TCells(base)
+
+
 class AView:
     """a view into an ATable (row / column / sub-slices) or ABits of kind np: list of (cell getter/setter)"""
 
@@ -1393,6 +1435,9 @@ class Frame:
             return [cbit((b >> (7 - k)) & 1) for b in v for k in range(8)]
         if isinstance(v, (list, tuple)):
             return [self.to_bit(x) for x in v]
+        if isinstance(v, AFin):
+            # a finite function whose values are equal-length sequences: one finite function per position
+            return [self.to_bit(x) for x in self.iterate(v, None)]
         raise Abort(f"cannot view {type(v).__name__} as bit sequence")
 
     def to_int(self, v) -> AInt:
@@ -1442,6 +1487,8 @@ class Frame:
             return [AInt([b]) for b in v.items]
         if isinstance(v, AView):
             return [AInt([b]) for b in v.get()]
+        if isinstance(v, ATable):
+            return [AView(v, [(r, c) for c in range(v.cols)]) for r in range(v.rows)]
         if isinstance(v, AFin):
             lens = {len(t) if isinstance(t, (tuple, list)) else None for t in v.table}
             if len(lens) == 1 and None not in lens:
